@@ -25,10 +25,13 @@ structure Fixes where
   f1 : Bool := false
   /-- F25 repaired: an escaped `^`/`$` is left alone -/
   f25 : Bool := false
+  /-- F186 repaired: the block name must equal the table name (the code accepts any name that *starts with* a table name,
+      first row wins: `GreekExtended` finds `Greek`) -/
+  f186 : Bool := false
 deriving Repr, BEq, DecidableEq
 
 def Fixes.none : Fixes := {}
-def Fixes.all : Fixes := { f1 := true, f25 := true }
+def Fixes.all : Fixes := { f1 := true, f25 := true, f186 := true }
 
 inductive RwErr where
   /-- "character group doesn't begin with '['" -/
@@ -115,6 +118,10 @@ def ublocks : List (Bytes × Bytes) :=
 def findBlock (tbl : List (Bytes × Bytes)) (text : Bytes) : Option Nat :=
   tbl.findIdx? fun e => e.1.isPrefixOf text
 
+/-- the repaired lookup: the row whose name is exactly `name` -/
+def findBlockExact (tbl : List (Bytes × Bytes)) (name : Bytes) : Option Nat :=
+  tbl.findIdx? fun e => e.1 == name
+
 inductive Step where
   | done
   | next (t : Bytes)
@@ -129,7 +136,8 @@ def chblocksStep (fx : Fixes) (tbl : List (Bytes × Bytes)) (ulen : Nat) (t : By
     | Option.none => .fail .unterminated
     | some e =>
       let stop := start + e + 1
-      match findBlock tbl (t.drop (start + needle.length)) with
+      let after := t.drop (start + needle.length)
+      match (if fx.f186 then findBlockExact tbl (after.take (e - needle.length)) else findBlock tbl after) with
       | Option.none => .fail .unknownBlock
       | some found =>
         let depth := depthOf (t.take start)
